@@ -91,12 +91,13 @@ def clipConvex (hs : List HP) (s : Seg) : Iv := clipFrom s hs (some (0, 1))
 /-- strictly inside every half-plane -/
 def strictlyInside (hs : List HP) (P : Pt) : Bool := hs.all (fun h => decide (h.eval P < 0))
 
-/-- the convention of the code applied to the closed interval: drop zero length and boundary pieces -/
+/-- the convention of the code applied to the closed interval: drop zero length (a degenerate input
+    segment, or an interval reduced to one parameter) and boundary pieces -/
 def clipConvexOpen (hs : List HP) (s : Seg) : Iv :=
   match clipConvex hs s with
   | none => none
   | some (lo, hi) =>
-    if lo < hi ∧ strictlyInside hs (s.at ((lo + hi) / 2)) then some (lo, hi) else none
+    if s.p ≠ s.q ∧ lo < hi ∧ strictlyInside hs (s.at ((lo + hi) / 2)) then some (lo, hi) else none
 
 /-! ### polygons -/
 
